@@ -256,48 +256,65 @@ The node is only tested for the prefix `clientCapabilitiesNode`. -/
 def answeredInfo (c : ClientCfg) (queryNode : Str) : Option Info :=
   if queryNode = [] ∨ c.node.isPrefixOf queryNode then some (capabilities c) else none
 
-/-! ### a client over a history: configure, publish presences, answer queries -/
+/-! ### a client over a history: the stored presence, the sites that emit it, queries
 
-/-- the client as far as capabilities are concerned: the discovery configuration and the `ver` stored in
-`d->clientPresence` (`none` before the first publication) -/
+`QXmppClientPrivate::clientPresence` is a stored stanza.  Its caps (`node`, `ver`) are (re)computed by
+`addProperCapability` ONLY in `setClientPresence` and `connectToServer` (and in the constructor, before any extension exists).
+The other emission sites send the stored copy as it is:
+  * `_q_streamConnected` — initial presence at every session start, including automatic reconnection;
+  * `disconnectFromServer` — the unavailable presence;
+  * `QXmppMucRoom::join`, nick change, own-presence reflection — built from `client()->clientPresence()`.
+`QXmppPresence::toXml` writes `<c/>` only when the stored node is non-empty. -/
+
+/-- caps computed by `addProperCapability` for a configuration, as they appear on the wire:
+`none` = no `<c/>` (empty capabilities node), `some (node, ver)` -/
+def freshCaps {β : Type} (H : Str → β) (c : ClientCfg) : Option (Str × β) :=
+  if c.node = [] then none else some (c.node, advertisedVer H c)
+
+/-- the discovery configuration and the caps stored in `d->clientPresence` -/
 structure ClientSt (β : Type) where
   cfg : ClientCfg
-  presenceVer : Option β := none
+  stored : Option (Str × β) := none
+
+/-- emission sites that send the stored presence without recomputing its caps -/
+inductive Site | sessionStart | disconnect | mucJoin
+  deriving DecidableEq, Repr
 
 inductive ClientOp
   /-- any reconfiguration through the API (`setClientName/Type/Category/CapabilitiesNode/InfoForm`, `addExtension`,
   `removeExtension`): the configuration afterwards -/
   | configure (c : ClientCfg)
-  /-- `setClientPresence(p)` / `connectToServer(config, p)` + session start; `derived` = `p` was copied from
-  `clientPresence()` and therefore already carries the previously computed `ver` -/
-  | publish (derived : Bool)
+  /-- `setClientPresence(p)` on a connected client: recompute, store, send.  `derived` = `p` was copied from
+  `clientPresence()` and already carries the previously computed caps (they are overwritten) -/
+  | setClientPresence (derived : Bool)
+  /-- `connectToServer(config, p)`: recompute, store; nothing is sent until the session starts -/
+  | connectToServer (derived : Bool)
+  /-- one of the sites that send (a copy of) the stored presence -/
+  | emitStored (site : Site)
   /-- a disco#info `get` for this node -/
   | query (node : Str)
 
 inductive ClientOut (β : Type)
-  /-- an emitted `<presence/>`: `some v` = with `<c ver=v node=… hash='sha-1'/>`; `none` = without a caps element
-  (`QXmppPresence::toXml` omits it when the capabilities node is empty, i.e. nothing is advertised) -/
-  | presence (ver : Option β)
+  /-- an emitted `<presence/>`: `some (node, ver)` = with `<c node=… ver=… hash='sha-1'/>`; `none` = without a caps element -/
+  | presence (caps : Option (Str × β))
   /-- the `ver` of the answered info set, `none` = item-not-found -/
   | answer (ver : Option β)
   deriving DecidableEq, Repr
 
-/-- `addProperCapability` recomputes the capabilities from the discovery manager at every publication,
-whatever the presence passed in carried -/
 def clientStep {β : Type} (H : Str → β) (s : ClientSt β) : ClientOp → ClientSt β × List (ClientOut β)
   | .configure c => ({ s with cfg := c }, [])
-  | .publish _ =>
-    let v := advertisedVer H s.cfg
-    ({ s with presenceVer := some v }, [.presence (if s.cfg.node = [] then none else some v)])
+  | .setClientPresence _ => ({ s with stored := freshCaps H s.cfg }, [.presence (freshCaps H s.cfg)])
+  | .connectToServer _ => ({ s with stored := freshCaps H s.cfg }, [])
+  | .emitStored _ => (s, [.presence s.stored])
   | .query n => (s, [.answer ((answeredInfo s.cfg n).map (ver H))])
 
-/-- run a history; every output is recorded together with the configuration in force when it was produced -/
-def clientRun {β : Type} (H : Str → β) (s : ClientSt β) : List ClientOp → ClientSt β × List (ClientCfg × ClientOut β)
+/-- run a history; every output is recorded together with the state right after the step that produced it -/
+def clientRun {β : Type} (H : Str → β) (s : ClientSt β) : List ClientOp → ClientSt β × List (ClientSt β × ClientOut β)
   | [] => (s, [])
   | op :: ops =>
     let r1 := clientStep H s op
     let r2 := clientRun H r1.1 ops
-    (r2.1, r1.2.map (fun o => (s.cfg, o)) ++ r2.2)
+    (r2.1, r1.2.map (fun o => (r1.1, o)) ++ r2.2)
 
 def emptyCfg : ClientCfg :=
   { category := [], type := [], name := [], baseFeatures := [], extFeatures := [], extIdentities := [],
